@@ -7,19 +7,24 @@ import NoKVModel.Snap.Invariant
 namespace NoKV.Snap
 open NoKV NoKV.Conc
 
-theorem Inv.init (c : SnapCfg) : Inv c initSt :=
-  { tmR := .init rfl
-    ti := fun _ _ h => by simp [initSt] at h
-    busy := fun h => by
-      have : (initSt).tm.sectionBusy = false := WM.init_sectionBusy
-      rw [this] at h; cases h
-    next := by
-      have : (initSt).tm.lastIndex = 0 := WM.init_lastIndex
-      rw [this]; simp [initSt]
-    tsLt := fun _ _ h => by simp [initSt] at h
-    uniq := fun _ _ _ _ h => by simp [initSt] at h
-    owned := fun ts h1 h2 => by simp [initSt] at h2; omega
-    fresh := fun j _ => WM.init_nDoneDec j }
+/-- `Inv` holds after `Open`, fresh or reopened: this is where the seeding of the marks by
+`oracle.initCommitState` matters — `txnMark.doneUntil = txnMark.lastIndex = n < nextTxnTs = n+1`, so
+the first commit timestamp of the session is not done (`next`), given `seedOff = 0`. -/
+theorem Inv.init (c : SnapCfg) (hseed : c.seedOff = 0) (n : Nat) (store : List Entry) :
+    Inv c (seededSt c n store) := by
+  have htm : (seededSt c n store).tm = seededWM n n := by
+    simp only [seededSt, hseed, Nat.add_zero]
+    split
+    · rename_i h0; subst h0; rfl
+    · rfl
+  exact
+    { tmR := by rw [htm]; exact WM.Ok.seeded n
+      ti := fun _ _ h => by simp [seededSt] at h
+      busy := fun h => by rw [htm] at h; simp [seededWM, WM.initSt] at h
+      next := by rw [htm]; simp [seededWM, seededSt]
+      tsLt := fun _ _ h => by simp [seededSt] at h
+      uniq := fun _ _ _ _ h => by simp [seededSt] at h
+      fresh := fun j _ => by rw [htm]; simp [seededWM, WM.initSt] }
 
 theorem nextTs_pos {c : SnapCfg} {s : St} (h : Inv c s) : 1 ≤ s.nextTs := by
   have := h.next; omega
@@ -31,7 +36,7 @@ theorem Inv.spawnStep {c : SnapCfg} {s : St} (h : Inv c s) (tid : Nat) (u : Bool
     intro x tx hx hne; rw [setT_thr, if_neg hne] at hx; exact hx
   have hme : ∀ tx, (setT s tid { update := u }).thr tid = some tx → tx = { update := u } := by
     intro tx hx; rw [setT_thr, if_pos rfl] at hx; cases hx; rfl
-  refine ⟨h.tmR, ?_, ?_, h.next, ?_, ?_, ?_, h.fresh⟩
+  refine ⟨h.tmR, ?_, ?_, h.next, ?_, ?_, h.fresh⟩
   · intro x tx hx
     by_cases hxt : x = tid
     · subst hxt; rw [hme tx hx]
@@ -53,10 +58,6 @@ theorem Inv.spawnStep {c : SnapCfg} {s : St} (h : Inv c s) (tid : Nat) (u : Bool
     · by_cases hbt : b = tid
       · subst hbt; rw [hme tb hb] at heq; simp at heq; exact (hne heq).elim
       · exact h.uniq a b ta tb (hoth a ta ha hat) (hoth b tb hb hbt) hne heq
-  · intro ts h1 h2
-    obtain ⟨x, tx, hx, hxe⟩ := h.owned ts h1 h2
-    have hxt : x ≠ tid := fun e => by subst e; rw [hfree] at hx; cases hx
-    exact ⟨x, tx, by rw [setT_thr, if_neg hxt]; exact hx, hxe⟩
 
 /-- a step of an open transaction between calls (`get`, `set`, `scan`): only fields that no
 invariant reads change -/
@@ -78,7 +79,7 @@ theorem HasKind.spawn {s s' : St} {w : Nat} {k : WM.Kind} (se : WM.SpawnEff s.tm
   exact ⟨wt, by rw [se.oth x this]; exact hx, hK⟩
 
 /-- a thread enters `txnMark.WaitForMark` or `txnMark.Done` -/
-theorem Inv.enterTxn {c : SnapCfg} {s s' : St} (h : Inv c s) (tid : Nat) (t t' : Txn) (call : Call)
+theorem Inv.enterTxn {c : SnapCfg} (hcf : c.wm.countsFirst = true) {s s' : St} (h : Inv c s) (tid : Nat) (t t' : Txn) (call : Call)
     (ht : s.thr tid = some t)
     (hthr : ∀ x, s'.thr x = if x = tid then some t' else s.thr x)
     (hnk : call.kind.isBegin = false)
@@ -93,7 +94,7 @@ theorem Inv.enterTxn {c : SnapCfg} {s s' : St} (h : Inv c s) (tid : Nat) (t t' :
     (HasKind.spawn se) (fun _ _ _ _ _ => by rw [se.dec]) (fun _ => by rw [se.cnt]; exact Nat.le_refl _)
     (fun _ he => by rw [e3]; exact he) (hself se) ?_ (by rw [se.last, e4]; exact h.next)
     (fun j hj => by rw [se.dec]; exact h.fresh j (by omega)) (Or.inl ⟨hts, e4⟩)
-  · exact WM.spawn_reach c.wm s.tm s'.tm s.wfresh call hnk h.tmR hws
+  · exact WM.spawn_reach c.wm hcf s.tm s'.tm s.wfresh call hnk h.tmR hws
   · intro hbusy
     rw [hb] at hbusy
     obtain ⟨x, tx, w, wt, hx, hpc, hw, hst⟩ := h.busy hbusy
@@ -207,7 +208,7 @@ theorem Inv.mutex {c : SnapCfg} {s : St} (h : Inv c s) {a b : Nat} {ta tb : Txn}
 
 /-- `ts := nextTxnTs.Add(1) - 1` and the entry into `txnMark.Begin(ts)`: the usage contract of the
 watermark holds at this point because the thread owns the oracle mutex -/
-theorem Inv.assign {c : SnapCfg} {s s' : St} (h : Inv c s) (tid : Nat) (t : Txn)
+theorem Inv.assign {c : SnapCfg} (hcf : c.wm.countsFirst = true) {s s' : St} (h : Inv c s) (tid : Nat) (t : Txn)
     (ht : s.thr tid = some t) (hpc : t.pc = .cAssign)
     (hthr : ∀ x, s'.thr x = if x = tid then
       some { t with commitTs := s.nextTs, pc := .call .txn s.wfresh .cRecord } else s.thr x)
@@ -229,7 +230,7 @@ theorem Inv.assign {c : SnapCfg} {s s' : St} (h : Inv c s) (tid : Nat) (t : Txn)
     (HasKind.spawn se) (fun _ _ _ _ _ => by rw [se.dec]) (fun _ => by rw [se.cnt]; exact Nat.le_refl _)
     (fun _ he => by rw [e3]; exact he) ?_ ?_ (by rw [se.last, e4]; have := h.next; omega)
     (fun j hj => by rw [se.dec]; exact h.fresh j (by omega)) (Or.inr ⟨hp.1, rfl, e4⟩)
-  · exact WM.begin_reach c.wm s.tm s'.tm s.wfresh s.nextTs hpos hnotbusy h.next h.tmR hws
+  · exact WM.begin_reach c.wm hcf s.tm s'.tm s.wfresh s.nextTs hpos hnotbusy h.next h.tmR hws
   · refine ⟨fun hb => ?_, ?_⟩
     · have := (h.ti tid t ht).began hb
       rw [se.du]; exact this
@@ -284,14 +285,14 @@ theorem Inv.callReturn {c : SnapCfg} (hcf : c.wm.countsFirst = true) {s : St} (h
       have hnb : ∀ w', t.pc ≠ .call .txn w' .cRecord := fun w' => by rw [hpc]; simp
       have hret : wt.returned = true :=
         thrDone_wait c.wm wt _ hkind (by simpa only [callDone, markOf, hw] using hdone)
-      have hle := WM.wait_returned_le c.wm true s.tm h.tmR w wt _ hw hkind hret
+      have hle := WM.wait_returned_le s.tm h.tmR w wt _ hw hkind hret
       refine h.localStep tid t _ ht (setT_thr _ _ _) rfl rfl rfl rfl rfl hnb ⟨fun _ => hle, ?_⟩
       simp [PcInv, h0]
     · -- txnMark.Begin returned
       subst hk
       have hdn : thrDone c.wm wt = true := by simpa only [callDone, markOf, hw] using hdone
       have hstage := thrDone_begin_stage c.wm wt _ hkind hdn
-      have hcounted := WM.begun_counted c.wm hcf s.tm h.tmR w wt _ hw hkind (by omega)
+      have hcounted := WM.begun_counted s.tm h.tmR w wt _ hw hkind (by omega)
       refine h.update tid t _ ht (setT_thr _ _ _) h.tmR (Nat.le_refl _) (fun _ _ hx => hx)
         (fun _ _ hx => hx) (fun _ _ _ _ _ => rfl) (fun _ => Nat.le_refl _) (fun _ he => he)
         ⟨fun hb => hti.began (by simpa using hb), ?_⟩ ?_ h.next h.fresh (Or.inl ⟨rfl, rfl⟩)
@@ -360,7 +361,7 @@ theorem mem_of_getElem?_none {α : Type} (l : List α) (i : Nat) (hn : l[i]? = n
 
 theorem Inv.step {c : SnapCfg} (hc : c.Good) {s s' : St} {a : Act} (h : Inv c s)
     (hs : Snap.step c s a = some s') : Inv c s' := by
-  obtain ⟨hcf, hlk, hda, hrw⟩ := hc
+  obtain ⟨hcf, hlk, hda, hrw, _⟩ := hc
   cases a with
   | spawn tid u =>
     simp only [Snap.step] at hs
@@ -471,7 +472,7 @@ theorem Inv.step {c : SnapCfg} (hc : c.Good) {s s' : St} {a : Act} (h : Inv c s)
         have hnb : ∀ w, t.pc ≠ .call .txn w .cRecord := fun w => by rw [hpc]; simp
         simp only [stepThr, hpc, hrw, if_true] at hs
         obtain ⟨e0, hws, e2, e3, e4⟩ := enter_txn_shape hs
-        refine h.enterTxn tid t _ (Call.wait t.readTs) ht e0 rfl hws e2 e3 e4 rfl hnb (fun se => ⟨fun hb => ?_, ?_⟩)
+        refine h.enterTxn hcf tid t _ (Call.wait t.readTs) ht e0 rfl hws e2 e3 e4 rfl hnb (fun se => ⟨fun hb => ?_, ?_⟩)
         · rw [se.du]; exact hti.began hb
         · simp only [PcInv]; exact ⟨hp', _, se.self, rfl⟩
       | active => simp only [stepThr, hpc] at hs; cases hs
@@ -529,7 +530,7 @@ theorem Inv.step {c : SnapCfg} (hc : c.Good) {s s' : St} {a : Act} (h : Inv c s)
         · rename_i s1 hs1
           cases hs
           obtain ⟨e0, hws, e2, e3, _⟩ := enter_txn_shape hs1
-          exact h.assign tid t ht hpc e0 hws e2 e3 rfl
+          exact h.assign hcf tid t ht hpc e0 hws e2 e3 rfl
         · cases hs
       | cRecord =>
         rw [hpc] at hp
@@ -593,7 +594,7 @@ theorem Inv.step {c : SnapCfg} (hc : c.Good) {s s' : St} {a : Act} (h : Inv c s)
         have hnb : ∀ w, t.pc ≠ .call .txn w .cRecord := fun w => by rw [hpc]; simp
         simp only [stepThr, hpc] at hs
         obtain ⟨e0, hws, e2, e3, e4⟩ := enter_txn_shape hs
-        refine h.enterTxn tid t _ (Call.done t.commitTs) ht e0 rfl hws e2 e3 e4 rfl hnb (fun se => ⟨fun hb => ?_, ?_⟩)
+        refine h.enterTxn hcf tid t _ (Call.done t.commitTs) ht e0 rfl hws e2 e3 e4 rfl hnb (fun se => ⟨fun hb => ?_, ?_⟩)
         · rw [se.du]; exact hti.began hb
         · simp only [afterDone, hda, if_true, PcInv]
           exact ⟨hp'.1.1, fun kv hkv => by rw [e3]; exact hp'.2.2 kv hkv, _, se.self, rfl⟩
@@ -620,12 +621,12 @@ theorem Inv.step {c : SnapCfg} (hc : c.Good) {s s' : St} {a : Act} (h : Inv c s)
             | read =>
               exact ⟨h.tmR, fun x tx hx => (h.ti x tx hx).frame (Nat.le_refl _) (fun hx => hx) (fun _ _ hx => hx)
                 (fun _ => rfl) (fun _ => Nat.le_refl _) (fun _ he => he), h.busy, h.next, h.tsLt, h.uniq,
-                h.owned, h.fresh⟩
+                h.fresh⟩
           · cases hs
 
 theorem Inv.reachable {c : SnapCfg} (hc : c.Good) (s : St) (hr : Reachable (sys c) s) : Inv c s := by
   refine Reachable.invariant (S := sys c) (Inv c) ?_ ?_ s hr
-  · intro s0 h0; cases h0; exact Inv.init c
+  · rintro s0 ⟨n, store, rfl, _⟩; exact Inv.init c hc.2.2.2.2 n store
   · intro s0 a s1 ih hst; exact ih.step hc hst
 
 end NoKV.Snap
